@@ -20,7 +20,8 @@ import (
 // by a discrete-event heap of macrotasks on a simulated clock. Every macrotask is exactly one outermost call into the
 // real runtime, after which goja drains its own promise job queue (the code under test). The workload track decides the
 // promise program (loopsim_ast.go); the schedule track decides start times, Go-side resolver latencies, ties between
-// macrotasks due at the same instant, how macrotasks enter the runtime (RunProgram / Callable) and the faults
+// macrotasks due at the same instant, how macrotasks enter the runtime (RunProgram / Callable / Constructor / ExportTo'd
+// function) and the faults
 // (interrupt inside a host native, interrupt at a VM tick, call-depth limit). The recorded history is then replayed
 // against a reference model written from ECMA-262 (loopsim_model.go).
 
@@ -29,12 +30,12 @@ func init() {
 		Property: "C10", EngineName: "loopsim",
 		New:       func(tier string) core.Engine { return &loopsim{tier: tier} },
 		QuickRuns: 40000, QuickCapS: 60, ThoroughRun: 2000000, ThoroughCap: 1200,
-		Rule: "a case = (promise program of <= 12 top-level operations in 1-3 client tasks over <= 5 base promises plus derived ones, with handlers, executors, thenables, async functions, timers and 0-2 Go-side NewPromise promises; macrotask schedule: start times, resolver latencies, ties, entry API; fault schedule); distinct = distinct realised shape (per macrotask: kind, fault, sequence of the kinds of the handlers / probes that ran); non-trivial = jobs of at least two chains ran interleaved in one drain, or a fault (interrupt, depth limit) fired",
+		Rule: "a case = (promise program of <= 12 top-level operations in 1-3 client tasks (each ending normally or with an uncaught exception) over <= 5 base promises plus derived ones, with handlers, executors, thenables, async functions, timers and 0-2 Go-side NewPromise promises; macrotask schedule: start times, resolver latencies, ties, entry API; fault schedule); distinct = distinct realised shape (per macrotask: kind, fault, sequence of the kinds of the handlers / probes that ran); non-trivial = jobs of at least two chains ran interleaved in one drain, or a fault (interrupt, depth limit) fired",
 		Real: realComponents,
 		Stub: []string{"the event loop (macrotask heap on a simulated clock instead of goja_nodejs/eventloop)", "setTimeout/clearTimeout", "the Go-side asynchronous operations that settle NewPromise promises (latencies drawn from the tape)", "every host native (L, B, Z, R, G, SS, GS, CT, goAsync, settleNow, NH, NS, D)", "the interrupting watchdog (raised inside a host native or from the per-instruction tick hook)", "Math.random"},
 		Assumptions: []string{
 			"only the intrinsic Promise constructor is used: no subclassing, no Symbol.species, no patched then/resolve",
-			"one Runtime is used from one goroutine; every macrotask is one outermost call (RunProgram, Callable or a NewPromise resolver)",
+			"one Runtime is used from one goroutine; every macrotask is one outermost call (RunProgram, Callable, Constructor, ExportTo'd Go func or a NewPromise resolver)",
 			"tick-raised interrupts are delivered at the first VM tick >= the drawn one that is not between the marker B() and the next host call (the marker precedes every promise-visible effect, so the model can place the interrupt exactly)",
 			"error objects are compared by kind (TypeError, AggregateError + errors), not by message text",
 			"host natives propagate uncatchable errors they receive from nested calls",
@@ -91,7 +92,8 @@ type lsSlotState struct {
 
 type lsRec struct {
 	task      *lsTask
-	callable  bool
+	callable  bool // entered through anything but RunProgram
+	entry     int
 	fault     int
 	faultPos  int
 	fromZ     bool
@@ -101,6 +103,7 @@ type lsRec struct {
 	tracker   []string
 	states    []lsSlotState // per slot; state -1: slot empty
 	err       error
+	excDesc   string // err is an *Exception: description of the thrown value
 	panicked  string
 	jobQueue  int
 	ticks     int64
@@ -450,9 +453,9 @@ var (
 )
 
 // runMacrotask performs exactly one outermost call into the runtime.
-func (h *lsHost) runMacrotask(t *lsTask, callable bool, fault, pos int, fromZ bool) *lsRec {
+func (h *lsHost) runMacrotask(t *lsTask, entry int, fault, pos int, fromZ bool) *lsRec {
 	rt := h.rt
-	rec := &lsRec{task: t, callable: callable, fault: fault, faultPos: pos, fromZ: fromZ, startedAt: h.now}
+	rec := &lsRec{task: t, callable: entry != leRunProgram, entry: entry, fault: fault, faultPos: pos, fromZ: fromZ, startedAt: h.now}
 	h.events, h.tracker = nil, nil
 	h.window, h.fireable, h.fault, h.faultPos, h.fired, h.firedAt, h.ticks = true, 0, fault, pos, false, 0, 0
 	h.fromZ, h.armed, h.tickBase = fromZ, !fromZ || t.kind == mtGoSettle, 0
@@ -468,10 +471,21 @@ func (h *lsHost) runMacrotask(t *lsTask, callable bool, fault, pos int, fromZ bo
 		}()
 		switch t.kind {
 		case mtTask:
-			if callable {
-				f, _ := goja.AssertFunction(rt.Get("T" + strconv.Itoa(t.arg)))
+			fv := rt.Get("T" + strconv.Itoa(t.arg))
+			switch entry {
+			case leCallable:
+				f, _ := goja.AssertFunction(fv)
 				_, rec.err = f(goja.Undefined())
-			} else {
+			case leConstructor:
+				f, _ := goja.AssertConstructor(fv)
+				_, rec.err = f(nil)
+			case leExportFunc:
+				var f func() (goja.Value, error)
+				if err := rt.ExportTo(fv, &f); err != nil {
+					panic("loopsim: ExportTo: " + err.Error())
+				}
+				_, rec.err = f()
+			default:
 				_, rec.err = rt.RunProgram(lsTaskProgs[t.arg])
 			}
 		case mtTimer:
@@ -490,6 +504,9 @@ func (h *lsHost) runMacrotask(t *lsTask, callable bool, fault, pos int, fromZ bo
 		rt.SetMaxCallStackSize(1<<31 - 1)
 	}
 	h.fault = lfNone
+	if ex, ok := rec.err.(*goja.Exception); ok {
+		rec.excDesc = h.desc(ex.Value())
+	}
 	rec.events, rec.fired, rec.firedAt, rec.ticks = h.events, h.fired, h.firedAt, h.ticks
 	rec.tracker = h.trackerLabels()
 	rec.jobQueue = rt.VerifState().JobQueue
@@ -509,6 +526,16 @@ func (h *lsHost) runMacrotask(t *lsTask, callable bool, fault, pos int, fromZ bo
 // ---- one run ---------------------------------------------------------------------------------------------------
 
 const lsMaxMacrotasks = 48
+
+// How a client task enters the runtime.
+const (
+	leRunProgram = iota
+	leCallable
+	leConstructor
+	leExportFunc
+)
+
+var leNames = [...]string{"RunProgram", "Callable", "Constructor", "ExportTo'd func() (Value, error)"}
 
 func (e *loopsim) Run(t *core.Tape, want bool) *core.Result {
 	res := &core.Result{}
@@ -549,10 +576,10 @@ func (e *loopsim) Run(t *core.Tape, want bool) *core.Result {
 	}
 
 	// ---- schedule ------------------------------------------------------------------------------------------------
-	taskCallable := make([]bool, len(prog.tasks))
+	taskEntry := make([]int, len(prog.tasks))
 	for i := range prog.tasks {
 		h.schedule(&lsTask{at: int64(i + S.Draw(4)), kind: mtTask, arg: i})
-		taskCallable[i] = S.Draw(2) == 1
+		taskEntry[i] = S.Draw(4)
 	}
 	h.gdelay = make([][2]int, prog.nGo)
 	h.gtwice = make([]bool, prog.nGo)
@@ -585,9 +612,9 @@ func (e *loopsim) Run(t *core.Tape, want bool) *core.Result {
 			continue
 		}
 		h.now = mt.at
-		callable := true
+		entry := leCallable
 		if mt.kind == mtTask {
-			callable = taskCallable[mt.arg]
+			entry = taskEntry[mt.arg]
 		}
 		if mt.kind == mtGoSettle {
 			// reordering: a resolver scheduled later runs before one scheduled earlier
@@ -613,9 +640,9 @@ func (e *loopsim) Run(t *core.Tape, want bool) *core.Result {
 				fault, pos = lfDepth, 60+S.Draw(30)
 			}
 		}
-		rec := h.runMacrotask(mt, callable, fault, pos, fromZ)
+		rec := h.runMacrotask(mt, entry, fault, pos, fromZ)
 		recs = append(recs, rec)
-		if rec.fired || rec.err != nil {
+		if _, exc := rec.err.(*goja.Exception); rec.fired || rec.err != nil && !exc {
 			faultsLeft--
 		}
 		if rec.panicked != "" {
@@ -649,8 +676,8 @@ func (e *loopsim) Run(t *core.Tape, want bool) *core.Result {
 		}
 		var sb strings.Builder
 		sb.WriteByte("Ttg"[rec.task.kind])
-		if rec.callable && rec.task.kind == mtTask {
-			sb.WriteByte('c')
+		if rec.task.kind == mtTask {
+			sb.WriteByte("pcne"[rec.entry])
 		}
 		for _, ev := range rec.events {
 			if ev[0] == 'L' {
@@ -661,7 +688,9 @@ func (e *loopsim) Run(t *core.Tape, want bool) *core.Result {
 				sb.WriteByte(ev[1])
 			}
 		}
-		if rec.fired || rec.err != nil {
+		if rec.excDesc != "" {
+			sb.WriteString("!x")
+		} else if rec.fired || rec.err != nil {
 			sb.WriteString("!" + strconv.Itoa(rec.fault))
 		}
 		sigParts = append(sigParts, sb.String())
@@ -692,13 +721,9 @@ func progHasHazard(p *lprog) bool {
 
 func lsTaskName(rec *lsRec) string {
 	t := rec.task
-	via := "Callable"
 	switch t.kind {
 	case mtTask:
-		if !rec.callable {
-			via = "RunProgram"
-		}
-		return fmt.Sprintf("client task T%d() via %s", t.arg, via)
+		return fmt.Sprintf("client task T%d() via %s", t.arg, leNames[rec.entry])
 	case mtTimer:
 		return fmt.Sprintf("timer #%d via Callable", t.arg)
 	}
@@ -780,12 +805,31 @@ func (e *loopsim) judge(m *lmodel, recs []*lsRec, res *core.Result, count bool) 
 			if !depthAbort {
 				return fail("unexpected-error", "stack-overflow-early", "StackOverflowError (limit %d) before the deep recursion was reached; events: %s", rec.faultPos, strings.Join(rec.events, " "))
 			}
+		} else if rec.excDesc != "" && !aborted {
+			// the synchronous part ended with an uncaught exception: it comes back as *Exception, after the drain
+			if m.thrown == "" {
+				return fail("unexpected-error", where, "the outermost call returned %s, the program does not throw there", core.Trunc(lsErrDesc(rec.err), 300))
+			}
+			if m.thrown != rec.excDesc {
+				return fail("unexpected-error", where+" value", "the outermost call returned an exception with value %s, the program throws %s", rec.excDesc, m.thrown)
+			}
 		} else if rec.err != nil {
 			return fail("unexpected-error", where, "the outermost call returned %s", core.Trunc(lsErrDesc(rec.err), 300))
 		} else if aborted {
 			return fail("interrupt-error", "depth-limit", "the call-depth limit %d was exceeded inside the macrotask but the outermost call returned normally", rec.faultPos)
 		}
 
+		if rec.err == nil && !aborted && m.thrown != "" {
+			return fail("unexpected-error", where+" lost-exception", "the synchronous part ended with an uncaught exception (%s) but the outermost call returned normally", m.thrown)
+		}
+		// (3) the queue is empty when control is back in Go, however the outermost call ended
+		if rec.jobQueue != 0 {
+			how := "normally"
+			if rec.err != nil {
+				how = "with " + core.Trunc(lsErrDesc(rec.err), 80)
+			}
+			return fail("queue-not-empty-at-return", where, "jobQueue still holds %d jobs after the outermost call returned %s (events so far: %s; the specification's job queue gives: %s)", rec.jobQueue, how, strings.Join(rec.events, " "), strings.Join(m.events, " "))
+		}
 		// (1) global order of events, (2) exactly once
 		if d := lsDiverge(rec.events, m.events); d >= 0 {
 			rule, ctx := lsClassify(rec.events, m.events, d)
@@ -794,7 +838,6 @@ func (e *loopsim) judge(m *lmodel, recs []*lsRec, res *core.Result, count bool) 
 			}
 			return fail(rule, where+" "+ctx, "event #%d: goja %s, the specification's job queue gives %s", d, lsAt(rec.events, d), lsAt(m.events, d))
 		}
-		// (3) the queue is empty when control is back in Go
 		if rec.jobQueue != 0 || len(m.queue) != 0 {
 			return fail("queue-not-empty-at-return", where, "jobQueue holds %d jobs after the outermost call returned (model: %d)", rec.jobQueue, len(m.queue))
 		}
